@@ -3,14 +3,14 @@
 id=$1; shift; checks=${@:-$id}
 wt=/tmp/wt/$id; out=/verif/seeded/$id; mkdir -p $out
 cd $wt || exit 2
-git diff -- pennylane > $out/patch.diff
-[ -s $out/patch.diff ] || { [ -f patch_$id.diff ] && cp patch_$id.diff $out/patch.diff && git apply $out/patch.diff; }
+# the agent's patch file is the source of truth (git stash is shared between worktrees and must not be used)
+if [ -f patch_$id.diff ]; then cp patch_$id.diff $out/patch.diff; else git diff -- pennylane > $out/patch.diff; fi
 cp demo_$id.py $out/demo.py 2>/dev/null || cp demo_*.py $out/demo.py
 demo=$(ls demo_$id.py demo_*.py 2>/dev/null | head -1)
-PYTHONPATH=$wt timeout 1200 /venv/bin/python $demo > $out/demo_with.log 2>&1; with=$?
-git stash -q
+git checkout -q -- pennylane
 PYTHONPATH=$wt timeout 1200 /venv/bin/python $demo > $out/demo_without.log 2>&1; without=$?
-git stash pop -q
+git apply $out/patch.diff || { echo "PATCH DOES NOT APPLY"; exit 2; }
+PYTHONPATH=$wt timeout 1200 /venv/bin/python $demo > $out/demo_with.log 2>&1; with=$?
 base=$(/verif/tools/baseline.sh $wt 2>&1 | head -3)
 res=""
 for c in $checks; do
@@ -25,7 +25,7 @@ meta={"property":id,"title":props[id]["title"],"demo_exit_with_change":int(w),"d
  "pinned_suite_with_change":base.strip(),"our_checks_run":checks.split(),"our_checks_result":res.strip(),
  "confirmed": int(w)!=0 and int(wo)==0 and "missing=0" in base,
  "detected": "exit=1" in res and "VIOLATION" in res,
- "ran":["demo with change","demo without change (git stash)","tools/baseline.sh <worktree>","tools/mut.sh seeded/%s/patch.diff %s"%(id,checks)]}
+ "ran":["demo with change (git apply patch)","demo without change (git checkout -- pennylane)","tools/baseline.sh <worktree>","tools/mut.sh seeded/%s/patch.diff %s"%(id,checks)]}
 p=f'/verif/seeded/{id}/meta.json'
 old=json.load(open(p)) if os.path.exists(p) else {}
 old.update(meta); json.dump(old,open(p,'w'),indent=1)
